@@ -8,6 +8,7 @@ import (
 	"fmt"
 	"os"
 	"sort"
+	"strconv"
 	"strings"
 	"testing"
 	"time"
@@ -23,10 +24,10 @@ const rule = "a generated chain configuration (taker-fee rate and distribution s
 
 // Plan is a self-contained replayable history.
 type Plan struct {
-	Cfg       Config
-	Blocks    []Block
-	ExportAt  int // import node starts after this many blocks (0 = no export)
-	Restarts  []int // the noisy replica is rebuilt from its database before these block indices
+	Cfg      Config
+	Blocks   []Block
+	ExportAt int   // import node starts after this many blocks (0 = no export)
+	Restarts []int // the noisy replica is rebuilt from its database before these block indices
 }
 
 func savePlan(p Plan, why string) string {
@@ -138,7 +139,7 @@ func compareBlock(bi int, blk Block, a, b BlockResult, withHash bool) string {
 	return ""
 }
 
-func compareExports(stage string, a, b *Node) string {
+func compareExports(stage string, a, b *Node, masked *[]string) string {
 	_, pa, err := a.Export()
 	if err != nil {
 		return fmt.Sprintf("%s: export of the source node failed: %v", stage, err)
@@ -159,22 +160,52 @@ func compareExports(stage string, a, b *Node) string {
 	}
 	sort.Strings(mods)
 	for _, k := range mods {
-		if !bytes.Equal(normalizeExport(k, pa[k]), normalizeExport(k, pb[k])) {
-			return fmt.Sprintf("%s: module %q reports different state on the node initialised from the export\n%s", stage, k, diffStr(string(pa[k]), string(pb[k])))
+		if !bytes.Equal(pa[k], pb[k]) {
+			na, id := normalizeExport(k, pa[k])
+			nb, _ := normalizeExport(k, pb[k])
+			if id == "" || !bytes.Equal(na, nb) {
+				return fmt.Sprintf("%s: module %q reports different state on the node initialised from the export\n%s", stage, k, diffStr(string(pa[k]), string(pb[k])))
+			}
+			*masked = append(*masked, id)
 		}
 	}
 	return ""
 }
 
-// normalizeExport masks the fields listed as known findings (only while they are listed).
-func normalizeExport(module string, bz []byte) []byte {
-	return bz
+// normalizeExport masks what listed known findings explain (only while they are listed) and names the finding.
+// incentives: a gauge whose start time has passed but which no epoch end has activated yet is "upcoming" on the source
+// node and "active" on the imported one (C19-incentives-gauge-activation-not-exported); the export lists upcoming gauges
+// before active ones, so only the ORDER of the gauge list can differ - it is compared as a set ordered by id.
+func normalizeExport(module string, bz []byte) ([]byte, string) {
+	if module == "incentives" && drv.Known("C19-incentives-gauge-activation-not-exported") {
+		var m map[string]json.RawMessage
+		if json.Unmarshal(bz, &m) != nil {
+			return bz, ""
+		}
+		var gs []map[string]any
+		if json.Unmarshal(m["gauges"], &gs) != nil {
+			return bz, ""
+		}
+		sort.SliceStable(gs, func(i, j int) bool {
+			a, _ := strconv.ParseUint(fmt.Sprint(gs[i]["id"]), 10, 64)
+			b, _ := strconv.ParseUint(fmt.Sprint(gs[j]["id"]), 10, 64)
+			return a < b
+		})
+		g, _ := json.Marshal(gs)
+		m["gauges"] = g
+		out, _ := json.Marshal(m)
+		return out, "C19-incentives-gauge-activation-not-exported"
+	}
+	return bz, ""
 }
 
 // knownImportFailure maps an InitChain failure to a listed known finding (by its exact message), or "".
 func knownImportFailure(msg string) string {
 	if strings.Contains(msg, "one of twap record p0 and p1 last spot price must be zero due to having an error") && drv.Known("C19-twap-genesis-recovered-record") {
 		return "C19-twap-genesis-recovered-record"
+	}
+	if strings.Contains(msg, "total superfluid intermediary account delegation amount does not match total sum of lockup delegations") && drv.Known("C19-superfluid-invariant-exact") {
+		return "C19-superfluid-invariant-exact"
 	}
 	return ""
 }
@@ -183,7 +214,8 @@ type outcome struct {
 	restarted      bool
 	importExcluded string
 	grafted        []string
-	msg            string // "" = held
+	masked         []string // known findings that explained a difference between the exports of source and imported node
+	msg            string   // "" = held
 	okTx           int
 	modules        map[string]bool
 	longGap        bool
@@ -239,7 +271,7 @@ func replicate(p Plan, want []BlockResult, replicas int) (out outcome) {
 						return
 					}
 					if bi == p.ExportAt || bi == len(p.Blocks)-1 {
-						if d := compareExports(fmt.Sprintf("after block %d (export at %d)", bi, p.ExportAt), n, imp); d != "" {
+						if d := compareExports(fmt.Sprintf("after block %d (export at %d)", bi, p.ExportAt), n, imp, &out.masked); d != "" {
 							out.msg = d
 							return
 						}
@@ -318,6 +350,7 @@ func runCase(rt *rapid.T, c *drv.Case) {
 	okTx, failTx := 0, 0
 	mods := map[string]bool{}
 	long := false
+	reorderedAt := 0
 	var kinds []string
 	var okKinds []string
 	for i := 0; i < nb; i++ {
@@ -330,6 +363,19 @@ func runCase(rt *rapid.T, c *drv.Case) {
 		want = append(want, br)
 		if blk.Dt >= time.Hour {
 			long = true
+		}
+		// state whose stored order depends on the history (not on ids): a reference list of active gauges that a finished
+		// gauge has left by swap-remove. An export taken after that point must reproduce the order, not just the set.
+		if reorderedAt == 0 {
+			last := uint64(0)
+			for _, g := range leader.App.IncentivesKeeper.GetActiveGauges(leader.ReadCtx()) {
+				if g.Id < last {
+					reorderedAt = i + 1
+					c.Class("gauge-reference-list-out-of-id-order")
+					break
+				}
+				last = g.Id
+			}
 		}
 		for j, tx := range br.Tx {
 			r := DecodeTxResult(tx)
@@ -353,6 +399,10 @@ func runCase(rt *rapid.T, c *drv.Case) {
 	}
 	if nb >= 2 && rapid.IntRange(0, 3).Draw(rt, "doExport") > 0 {
 		p.ExportAt = rapid.IntRange(1, nb-1).Draw(rt, "exportAt")
+		if reorderedAt > 0 && reorderedAt <= nb-1 && rapid.IntRange(0, 3).Draw(rt, "exportAfterReordering") > 0 {
+			p.ExportAt = rapid.IntRange(reorderedAt, nb-1).Draw(rt, "exportAtAfterReordering")
+			c.Class("export-after-gauge-list-reordering")
+		}
 	}
 	if rapid.IntRange(0, 3).Draw(rt, "doRestart") > 0 {
 		for bi := 1; bi < nb; bi++ {
@@ -373,6 +423,9 @@ func runCase(rt *rapid.T, c *drv.Case) {
 	}
 	if out.importExcluded != "" {
 		c.Exclude(out.importExcluded + " (import skipped)")
+	}
+	for _, id := range out.masked {
+		c.Exclude(id + " (gauge list of the incentives export compared as a set)")
 	}
 	for _, id := range out.grafted {
 		c.Exclude(id + " (state grafted from the source node after the import)")
